@@ -310,11 +310,17 @@ def _stage_chain(fn: ast.FunctionDef, mask_name: str, input_name: str, tree: ast
             node = data[0]
         else:
             if st == "mask":
-                if len(node.args) < 2 or ast.unparse(node.args[1]) != mask_name:
+                marg = node.args[1] if len(node.args) > 1 else next((k.value for k in node.keywords if k.arg in ("mask_func", "sampling_mask")), None)
+                if marg is None or ast.unparse(marg) != mask_name:
                     raise Untranslatable("apply_mask is not called with the sampling mask")
-            if not node.args:
-                raise Untranslatable("stage without positional input")
-            node = node.args[0]
+            if node.args:
+                node = node.args[0]
+            else:                           # keyword call form: the data operand is the first keyword that is not an option
+                data = [k.value for k in node.keywords if k.arg not in ("sensitivity_map", "dim", "sampling_mask", "mask_func",
+                                                                         "return_mask", "seed")]
+                if not data:
+                    raise Untranslatable("stage without data operand")
+                node = data[0]
     if not (isinstance(node, ast.Name) and node.id == input_name):
         raise Untranslatable(f"innermost argument `{ast.unparse(node)}` is not `{input_name}`")
     return chain[::-1]
@@ -408,35 +414,50 @@ def _c03_extra():
         unconditional = bool(top) and isinstance(top[0], (ast.Assign, ast.Expr, ast.Return))
         pos = (call.lineno, call.col_offset)
         early = sum(1 for n in ast.walk(fn) if isinstance(n, ast.Return) and (n.lineno, n.col_offset) < pos)
-        binds: dict[str, str] = {}
+        env = _single_assign_env(fn)
+        norm = lambda x: " ".join(ast.unparse(x).split())  # noqa: E731
+        # statements before the call that could change the sample or depend on what is stored under the target key; key guards
+        # that raise (in any layout: two ifs, one loop over the keys, a helper) and bindings of locals are not among them
         other = 0
         for st in fn.body:
-            if (st.lineno, st.col_offset) >= (top[0].lineno, top[0].col_offset) if top else False:
+            if top and (st.lineno, st.col_offset) >= (top[0].lineno, top[0].col_offset):
                 break
-            if isinstance(st, ast.Expr) and isinstance(st.value, ast.Constant) and isinstance(st.value.value, str):
-                continue                                      # docstring
-            if (isinstance(st, ast.If) and not st.orelse and len(st.body) == 1 and isinstance(st.body[0], ast.Raise)
-                    and isinstance(st.test, ast.Compare) and len(st.test.ops) == 1 and isinstance(st.test.ops[0], ast.NotIn)
-                    and ast.unparse(st.test.comparators[0]) == "sample"):
-                continue                                      # `if key not in sample: raise …`
-            if (isinstance(st, ast.Assign) and len(st.targets) == 1 and isinstance(st.targets[0], ast.Name)
-                    and isinstance(st.value, ast.Subscript) and ast.unparse(st.value.value) == "sample"):
-                binds[st.targets[0].id] = ast.unparse(st.value.slice)
-                continue                                      # `x = sample[self.<key>]`
-            other += 1
-        args = [ast.unparse(a) for a in call.args]
-        from_input = len(args) >= 1 and binds.get(args[0], args[0].replace("sample[", "").rstrip("]")) == "self.input_kspace_key"
-        from_mask = len(args) >= 2 and binds.get(args[1], args[1].replace("sample[", "").rstrip("]")) == "self.sampling_mask_key"
-        # the (first component of the) result is what gets stored under the target key
+            for n in ast.walk(st):
+                tg = n.targets if isinstance(n, ast.Assign) else [n.target] if isinstance(n, (ast.AugAssign, ast.AnnAssign)) else \
+                    n.targets if isinstance(n, ast.Delete) else []
+                if any(isinstance(t, ast.Subscript) and norm(t.value) == "sample" for t in tg):
+                    other += 1
+                elif isinstance(n, ast.Call) and isinstance(n.func, ast.Attribute) and norm(n.func.value) == "sample" \
+                        and n.func.attr in ("pop", "update", "setdefault", "clear", "popitem", "__setitem__", "__delitem__"):
+                    other += 1
+                elif isinstance(n, ast.Attribute) and norm(n) == "self.target_kspace_key":
+                    other += 1
+                elif isinstance(n, (ast.Continue, ast.Break)) or (isinstance(n, ast.Try)):
+                    other += 1
+        kwd = {k.arg: k.value for k in call.keywords}
+        a0 = call.args[0] if call.args else kwd.get("kspace")
+        a1 = call.args[1] if len(call.args) > 1 else kwd.get("mask_func")
+        from_input = a0 is not None and norm(_expand(a0, env)) == "sample[self.input_kspace_key]"
+        from_mask = a1 is not None and norm(_expand(a1, env)) == "sample[self.sampling_mask_key]"
+        # what is stored under the target key is the masked k-space: the call with return_mask=False, `call[0]`, or the first
+        # component of the unpacked (masked, mask) pair
+        tensor_only = norm(kwd.get("return_mask", ast.Constant(True))) == "False"
+        first = set()
+        for n in ast.walk(fn):
+            if isinstance(n, ast.Assign) and n.value is call and isinstance(n.targets[0], ast.Tuple) and n.targets[0].elts \
+                    and isinstance(n.targets[0].elts[0], ast.Name) and not tensor_only:
+                first.add(n.targets[0].elts[0].id)
         stored = False
-        if top and isinstance(top[0], ast.Assign):
-            tgt = top[0].targets[0]
-            res = tgt.elts[0].id if isinstance(tgt, ast.Tuple) and tgt.elts and isinstance(tgt.elts[0], ast.Name) else None
-            if isinstance(tgt, ast.Subscript) and ast.unparse(tgt) == "sample[self.target_kspace_key]":
-                stored = True
-            for st in fn.body:
-                if (res and isinstance(st, ast.Assign) and ast.unparse(st.targets[0]) == "sample[self.target_kspace_key]"
-                        and ast.unparse(st.value) == res and st.lineno > top[0].lineno):
+        for n in ast.walk(fn):
+            if isinstance(n, ast.Assign) and len(n.targets) == 1 and norm(n.targets[0]) == "sample[self.target_kspace_key]" \
+                    and (n.lineno, n.col_offset) >= (top[0].lineno, top[0].col_offset if top else 0):
+                v = n.value
+                if isinstance(v, ast.Name) and v.id in first:
+                    stored = True
+                v = _expand(v, env) if not (isinstance(v, ast.Name) and v.id in first) else v
+                if norm(v) == norm(_expand(call, env)) and tensor_only:
+                    stored = True
+                if isinstance(v, ast.Subscript) and norm(v.value) == norm(_expand(call, env)) and norm(v.slice) == "0" and not tensor_only:
                     stored = True
         b = lambda x: "true" if x else "false"  # noqa: E731
         return (f"/-- translated from `{MT}`:`ApplyMaskModule.forward`: (returns before the apply_mask call, statements before it "
@@ -628,6 +649,9 @@ def _lean_str(s: str) -> str:
     return '"' + " ".join(s.split()).replace("\\", "\\\\").replace('"', "'") + '"'
 
 
+_OPERATOR_METHODS = ("_forward_operator", "_backward_operator", "_A_star_op", "_A_star_A_op")
+
+
 def scan_nn_sites(repo) -> list[dict]:
     import pathlib
 
@@ -641,26 +665,63 @@ def scan_nn_sites(repo) -> list[dict]:
             continue
 
         envs = [{}]
+        owners = [None]
+        called = set()
+        for c_ in ast.walk(tree):
+            if isinstance(c_, ast.Call):
+                if isinstance(c_.func, ast.Name):
+                    called.add(c_.func.id)
+                elif isinstance(c_.func, ast.Attribute) and isinstance(c_.func.value, ast.Name) and c_.func.value.id in ("self", "cls"):
+                    called.add(c_.func.attr)
 
-        def visit(node, qual):
+        def inlinable(f):
+            """a private helper that is not one of the named masked operators: its sites belong to the methods that reach it"""
+            return (isinstance(f, ast.FunctionDef) and f.name.startswith("_") and not f.name.startswith("__")
+                    and f.name not in _OPERATOR_METHODS)
+
+        def visit(node, qual, depth=2):
             for ch in ast.iter_child_nodes(node):
                 if isinstance(ch, (ast.FunctionDef, ast.AsyncFunctionDef, ast.ClassDef)):
+                    if inlinable(ch) and ch.name in called:
+                        continue                       # reached (and listed) through its callers
                     envs.append(_single_assign_env(ch) if isinstance(ch, ast.FunctionDef) else {})
-                    visit(ch, (qual + "." if qual else "") + ch.name)
+                    owners.append(ch if isinstance(ch, ast.ClassDef) else owners[-1])
+                    visit(ch, (qual + "." if qual else "") + ch.name, depth)
+                    owners.pop()
                     envs.pop()
                 else:
-                    handle(ch, qual)
-                    visit(ch, qual)
+                    handle(ch, qual, depth)
+                    visit(ch, qual, depth)
 
-        def handle(n0, qual):
+        def handle(n0, qual, depth=2):
             n = n0
-            if isinstance(n0, ast.Call) and envs[-1]:
-                # hoisted locals (`not_sampled = mask == 0`, `zero = torch.tensor(…)`, named intermediate steps) are inlined
-                n = ast.Call(func=n0.func, args=[_expand(a, envs[-1]) for a in n0.args],
-                             keywords=[ast.keyword(arg=k.arg, value=_expand(k.value, envs[-1])) for k in n0.keywords])
+            if isinstance(n0, ast.Call):
+                # hoisted locals (`not_sampled = mask == 0`, `zero = torch.tensor(…)`, named intermediate steps) are inlined;
+                # keyword and `**{…}` call forms are read like positional ones
+                kws = []
+                for k in n0.keywords:
+                    v = _expand(k.value, envs[-1])
+                    if k.arg is None and isinstance(v, ast.Dict) and all(isinstance(x, ast.Constant) and isinstance(x.value, str) for x in v.keys):
+                        kws += [ast.keyword(arg=x.value, value=_expand(y, envs[-1])) for x, y in zip(v.keys, v.values)]
+                    else:
+                        kws.append(ast.keyword(arg=k.arg, value=v))
+                n = ast.Call(func=n0.func, args=[_expand(a, envs[-1]) for a in n0.args], keywords=kws)
                 ast.copy_location(n, n0)
+                if depth > 0:
+                    r = _resolve_helper(tree, owners[-1], n0)
+                    if r is not None and inlinable(r[0]):
+                        b = _bind(r[0], r[1], n, {})
+                        if b is not None:
+                            env_h = dict(_single_assign_env(r[0]))
+                            env_h.update(b)
+                            envs.append(env_h)
+                            for st in r[0].body:
+                                handle(st, qual, depth - 1)
+                                visit(st, qual, depth - 1)
+                            envs.pop()
             if isinstance(n, ast.Call):
                 fname = ast.unparse(n.func)
+                allargs = list(n.args) + [k.value for k in n.keywords if k.arg not in ("dim", "return_mask", "seed")]
                 if fname == "torch.where" and len(n.args) == 3 and any(_masky(x) for x in ast.walk(n.args[0])):
                     pred, a, b = n.args
                     form = None
@@ -689,18 +750,21 @@ def scan_nn_sites(repo) -> list[dict]:
                                 return
                     sites.append({"file": rel, "func": qual, "form": '.flagged "torch.where with an unrecognised predicate/branches"',
                                   "kind": "where?", "operand": ast.unparse(n.args[2]), "mask": ast.unparse(n.args[0]), "zero": ""})
-                elif fname.split(".")[-1] == "apply_mask" and len(n.args) >= 2:
+                elif fname.split(".")[-1] == "apply_mask" and (len(n.args) >= 2 or {"kspace", "mask_func"} <= {k.arg for k in n.keywords}):
+                    kwd = {k.arg: k.value for k in n.keywords}
+                    n = ast.Call(func=n.func, args=[n.args[0] if n.args else kwd["kspace"], n.args[1] if len(n.args) > 1 else kwd["mask_func"]],
+                                 keywords=[])
                     comp = isinstance(n.args[1], ast.UnaryOp) and isinstance(n.args[1].op, ast.Invert)
                     sliced = any(isinstance(x, ast.Slice) for x in ast.walk(n.args[0]))
                     sites.append({"file": rel, "func": qual,
                                   "form": '.flagged "only a slice of the operand is masked"' if sliced else f".applyMask {'true' if comp else 'false'}",
                                   "kind": "apply_mask", "operand": ast.unparse(n.args[0]), "mask": ast.unparse(n.args[1]), "zero": "kspace"})
-                elif (isinstance(n.func, ast.Attribute) and n.func.attr in ("_forward_operator", "_backward_operator", "_A_star_op", "_A_star_A_op")
-                      and any(_masky(a) for a in n.args)):
-                    marg = [a for a in n.args if _masky(a)][0]
+                elif (isinstance(n.func, ast.Attribute) and n.func.attr in _OPERATOR_METHODS
+                      and any(_masky(a) for a in allargs)):
+                    marg = [a for a in allargs if _masky(a)][0]
                     comp = isinstance(marg, ast.UnaryOp) and isinstance(marg.op, ast.Invert)
                     sites.append({"file": rel, "func": qual, "form": f".operatorCall {'true' if comp else 'false'}",
-                                  "kind": "operator-call:" + n.func.attr, "operand": ast.unparse(n.args[0]), "mask": ast.unparse(marg),
+                                  "kind": "operator-call:" + n.func.attr, "operand": ast.unparse(allargs[0]), "mask": ast.unparse(marg),
                                   "zero": "kspace"})
                 elif isinstance(n.func, ast.Attribute) and n.func.attr in ("masked_fill", "masked_fill_", "masked_scatter"):
                     sites.append({"file": rel, "func": qual, "form": f'.flagged "{n.func.attr}"', "kind": n.func.attr,
